@@ -1,7 +1,7 @@
 """C10 — canonical, version-independent encodings: reader/writer structural agreement, hash independence, canonical-form refusals."""
 import re
 import r7
-from cfg import render, switch_conditions
+from cfg import render, switch_conditions, Exprs, atoms
 from facts import fn_loc, loc, callee_names
 
 CLAUSE = ("for every type with both a Readable and a Writeable implementation the sets of serialisation-op sequences (primitive ops with helper "
@@ -9,7 +9,9 @@ CLAUSE = ("for every type with both a Readable and a Writeable implementation th
           "writer paths and skip-PoW reader paths excluded; every use of the protocol version inside a writer lies on a non-hash-mode path and the "
           "hash writer's version does not depend on its state; the canonical-form refusals (sorted/unique bodies, zero padding, unknown or disabled "
           "kernel tags, NRD range, feature bytes, sorted segment positions, bitmap block bounds, item-count mismatch, unsupported protocol version, "
-          "PoW padding bits, body weight pre-check) exist and end in errors.")
+          "PoW padding bits, body weight pre-check) exist and end in errors; no decoder passes a wire value through a many-to-one operator (mask, shift, "
+          "division, remainder, min/max/clamp, saturating or wrapping arithmetic) on its way into the decoded value unless the same function also "
+          "refuses on a test over that operator (a decoder refuses a non-canonical encoding, it does not normalise it).")
 NOT_DECIDED = "byte-exact round trip for all values, bit packing arithmetic of the PoW nonces, field-to-op binding for same-width fields (level L2 not armed)."
 
 T = "grin_core::core::transaction::"
@@ -18,6 +20,59 @@ ASYMMETRIC = {
     "grin_chain::txhashset::bitmap_accumulator::BitmapChunk": "reader is a stub returning an empty chunk; chunks travel inside BitmapSegment/BitmapBlock encodings",
     "grin_core::core::merkle_proof::MerkleProof": "reader loops Hash::read path_len times, writer uses Vec::write (same bytes; prefix u64,u64 is compared below)",
 }
+
+
+# many-to-one operators: a wire value that passes through one of them on its way into the decoded value is normalised, not refused
+LOSSY = re.compile(r"^(op:(BitAnd|BitOr|BitXor|Shr|Shl|Rem|Div|ShrUnchecked|ShlUnchecked)|"
+                   r"call:(cmp::min|cmp::max|Ord::min|Ord::max|Ord::clamp|num::(saturating|wrapping|overflowing)_\w+|num::(rotate|swap_bytes|reverse_bits)\w*))$")
+# readers whose decoded value legitimately passes through such an operator today, one line of reason each
+NORMALISING = {
+    "<grin_chain::store::BoolFlag as grin_core::ser::Readable>::read": ({"op:BitAnd"}, "node-local LMDB flag (never hashed, never sent to a peer): the low bit of the byte is the flag"),
+    "<grin_chain::txhashset::bitmap_accumulator::BitmapBlock as grin_core::ser::Readable>::read": ({"op:Div"}, "byte length of the raw bitmap is n_bits / 8, n_bits a multiple of the constant chunk size"),
+    "<grin_core::core::merkle_proof::MerkleProof as grin_core::ser::Readable>::read": ({"call:cmp::min"}, "pre-allocation cap of the path vector (capacity only; every announced hash is still read)"),
+    "<secp256k1zkp::pedersen::RangeProof as grin_core::ser::Readable>::read": ({"call:cmp::min"}, "proof length clamped to MAX_PROOF_SIZE (the fixed-size proof buffer); longer encodings fail the range-proof check"),
+}
+
+
+def _no_normalise(c):
+    F = c.F
+    seen = 0
+    found_frozen = set()
+    for k, fn in sorted(F.fns.items()):
+        if fn.get("impl_trait") != "grin_core::ser::Readable":
+            continue
+        seen += 1
+        ex = Exprs(fn)
+        at = atoms(ex.local(0, 0, ()))
+        lossy = {a for a in at if LOSSY.match(a)}
+        wire = sorted(a for a in at if a.startswith("call:Reader::read_"))
+        allowed, _why = NORMALISING.get(k, (set(), ""))
+        if lossy & allowed:
+            found_frozen.add(k)
+        extra = lossy - allowed
+        if not extra or not wire:
+            continue
+        # tolerated: the function refuses on a test that involves the same operator over a wire value (validated, then extracted)
+        tested = set()
+        for bi, e, arms, els in c.guards(k):
+            ga = atoms(e)
+            if any(a.startswith("call:Reader::read_") for a in ga):
+                tested |= {a for a in ga if LOSSY.match(a)}
+        extra -= tested
+        if extra:
+            c.fn_seen.add(k)
+            c.record("decode-no-normalise", "R2", k, "%s: the decoded value does not pass a wire value through a many-to-one operator" % k, "violation", [fn_loc(fn)],
+                     ["the value returned by the decoder derives from %s through %s and no test in the decoder refuses on that operator: two different encodings decode to the same value "
+                      "(normalised instead of refused)" % (wire[:4], sorted(extra))], key_detail="lossy:" + ",".join(sorted(extra)))
+    c.stats["readers_scanned_for_normalisation"] = seen
+    if seen < 70:
+        c.lost("decode-no-normalise", "R2", None, "decoders scanned for normalising operators", "only %d Readable implementations found, floor 70" % seen)
+    elif len(found_frozen) < len(NORMALISING):
+        # positive control: the matcher must keep finding the operators of the frozen entries
+        c.lost("decode-no-normalise", "R2", None, "decoders scanned for normalising operators", "positive control lost: frozen entries no longer matched: %s" % sorted(set(NORMALISING) - found_frozen))
+    else:
+        c.record("decode-no-normalise-summary", "R2", None, "%d decoders scanned: none passes a wire value through a many-to-one operator on its way into the decoded value (%d frozen exceptions with reasons, all re-found)" % (
+            seen, len(NORMALISING)), "hold", sorted(NORMALISING)[:4], key_detail="summary")
 
 
 def _canon(seqs):
@@ -107,6 +162,7 @@ def run(c):
              desc="HashWriter::protocol_version does not depend on the writer's state")
     c.r1("hashed-uses-hash-writer", "<D as grin_core::core::hash::Hashed>::hash", "re:HashWriter as core::default::Default>::default$", sink="grin_core::ser::Writeable::write", via=2)
     # --- canonical-form refusals
+    _no_normalise(c)
     c.r1("body-sorted-on-read", "<%sTransactionBody as grin_core::ser::Readable>::read" % T, T + "TransactionBody::init", via=2)
     c.r2_arg("body-sorted-flag", "<%sTransactionBody as grin_core::ser::Readable>::read" % T, T + "TransactionBody::init", 3, const=1)
     c.r1("init-verifies-sorted", T + "TransactionBody::init", T + "TransactionBody::verify_sorted", via=2, extra_cuts=c.false_edges(T + "TransactionBody::init", r"^arg3$"),
